@@ -136,6 +136,7 @@ class Natives(object):
             ty = v.ty
             if ty == 'MutexGuard':
                 mu = v.f['m']
+                if m.debug: m.stats.setdefault('lockers', {}).pop(repr(mu), None)
                 m.store(mu.proj(('f', 'locked')), FALSE, gg)
                 if m.unwind_mode and getattr(th, 'unwinding', FALSE) is not FALSE:
                     m.store(mu.proj(('f', 'poison')), TRUE, And(gg, th.unwinding))
@@ -348,6 +349,7 @@ class Natives(object):
             return Not(l) if isinstance(l, E) else FALSE
         def lock(m, th, a, g):
             mu = a[0]
+            if m.debug: m.stats.setdefault('lockers', {})[repr(mu)] = (th.name, m.cur_site_name, show(g, 1)[:40])
             m.store(mu.proj(('f', 'locked')), TRUE, g)
             guard = St('MutexGuard', {'m': mu})
             po = m.load(mu.proj(('f', 'poison')), g)
@@ -578,6 +580,11 @@ class Natives(object):
             return En(OPT, Ite(has, ONE, ZERO), {1: St(None, {0: out})})
         T('Iterator', 'next', 'IntoIter', into_iter_next)
         # ---- atomics / ids
+        def future_id_new(m, th, a, g):
+            cur = getattr(m, 'next_future_id', ZERO)
+            m.next_future_id = Ite(g, Add(cur, ONE), cur)
+            return St('FutureId', {0: cur})
+        R('FutureId::new', future_id_new)
         R('Atomic::new AtomicU64::new', lambda m, th, a, g: St('Atomic', {'v': a[0]}))
         def fetch_add(m, th, a, g):
             r = a[0].proj(('f', 'v')); old = m.load(r, g); m.store(r, Add(old, a[1]), g); return old
@@ -603,6 +610,11 @@ class Natives(object):
         b1 = mp.Blk(); b1.term = ('return',)
         f.blocks = {'bb0': b0, 'bb1': b1}
         s.prog.add_fn(f); s.fn_drop_in_place = f
+        f2 = mp.Fn('__drop_value', '__drop_value'); f2.params = ['T']; f2.origin = 'glue'
+        c0 = mp.Blk(); c0.term = ('drop', ('local', 1), 'bb1', None)
+        c1 = mp.Blk(); c1.term = ('return',)
+        f2.blocks = {'bb0': c0, 'bb1': c1}
+        s.prog.add_fn(f2); s.fn_drop_value = f2
         R('ptr::drop_in_place', lambda m, th, a, g: Dispatch([(TRUE, f, [a[0]], None)]))
     def arc_pinned(s, callee):
         x = callee.replace('std::sync::', '').replace('scheduler::', '')
@@ -685,6 +697,7 @@ def install_futures(s):
     R('task::waker_ref waker_ref', waker_ref)
     T('Deref', 'deref', 'WakerRef', lambda m, th, a, g: a[0].proj(('f', 'w')))
     R('Context::from_waker', lambda m, th, a, g: St('Context', {'w': a[0]}))
+    R('FutureObj::new', lambda m, th, a, g: St('FutureObj', {'p': a[0]}))
     def cx_waker(m, th, a, g):
         cx = m.load(a[0], g)
         return cx.f['w'] if isinstance(cx, St) else Ref([])
